@@ -333,6 +333,10 @@ func conflictAtoms() []ConflictAtom {
 		ss[1].addType("XS", "", "id: ID!")
 		ss[1].Query = append(ss[1].Query, "xs1: XS")
 	}, true})
+	out = append(out, ConflictAtom{"node-lookup-with-extra-argument", func(ss []*SvcSpec) {
+		// the Relay lookup declared with a second argument by one service: one root field, two signatures
+		ss[0].NodeField = `node(id: ID!, lang: String = "en"): Node`
+	}, true})
 	out = append(out, ConflictAtom{"node-type-identical-in-two-services", func(ss []*SvcSpec) {
 		for si := 0; si < 2; si++ {
 			ss[si].addType("XN", "Node", "a: Int", "b: String")
@@ -543,10 +547,10 @@ func init() {
 	c03.Rule = "case = (schema set = base + <=3 (thorough 4) world atoms incl. type-system atoms: wrapper shapes, defaults of every kind, descriptions, deprecations, custom directives, interface chains, shared types/enums, 3rd/4th service; " +
 		"permutation of the service list; merger in {default, node-hiding}); the real merger is called directly; oracle: result loads as a valid schema, canonical facts of the result == union of the services' canonical facts " +
 		"(types, kinds, fields, argument names/types/defaults, enum values, union members, implements, possible types, input fields, directive definitions, root types), and every operation (<=2 fields) of each service and the introspection operations validate against the result; plus the conflicting sets of C05 (2 bases x 46 conflict atoms x permutations): " +
-		"refusing them is fine, a merge that succeeds must not have lost or overridden a declaration; non-trivial = >=2 services"
+		"refusing them is fine, a merge that succeeds must not have lost or overridden a declaration; plus 11 schema sets taken through the whole start-up path (real remote introspector over spec-shaped responders, then the merger inside NewGateway) under the same oracle; non-trivial = >=2 services"
 	c03.Assumptions = []string{"schemacanon.Canon defines schema equality (descriptions and applied directives excluded as the statement does not list them)", "all service sets here are mergeable by construction"}
 	c03.RunJob = func(tier, job string, from int, em *Emitter) { mergeRun("C03", tier, job, from, em) }
-	c03.Jobs = func(tier string) []string { return append([]string{"conflicts"}, mergeJobs(tier, "C03")...) }
+	c03.Jobs = func(tier string) []string { return append([]string{"conflicts", "introspected"}, mergeJobs(tier, "C03")...) }
 	Props["C03"] = c03
 
 	c04 := mk("C04")
@@ -724,7 +728,62 @@ func c03Conflicts(prop string, from int, em *Emitter) {
 	}
 }
 
+// c03Introspected: the whole start-up path - the schemas are fetched by the real remote introspector from
+// spec-shaped responders and merged by the real merger inside NewGateway; the facts of the gateway's schema must
+// still be the union of the services' facts.
+func c03Introspected(from int, em *Emitter) {
+	saved := WorldAtoms
+	WorldAtoms = append(append([]WorldAtom{}, WorldAtoms...), MergeAtoms...)
+	defer func() { WorldAtoms = saved }()
+	idx := 0
+	for _, wn := range []string{"W0", "Wmin", "W0+ts-directive", "W0+ts-defaults", "W0+ts-deprecated", "W0+ts-wrappers", "W0+third-service", "W0+shared-enum", "W0+ts-interface-chain",
+		"W0+directives-named-like-draft-spec-ones", "Wmin+directives-named-like-draft-spec-ones+ts-directive"} {
+		parts := strings.Split(wn, "+")
+		wd := WorldDesc{Base: parts[0], Atoms: parts[1:]}
+		w, err := wd.Build()
+		if err != nil {
+			em.GenError(err.Error())
+			continue
+		}
+		for _, sanitize := range []bool{false, true} {
+			idx++
+			if idx-1 < from {
+				continue
+			}
+			cfg := Config{Merger: "extend", Planner: "plain", IntroFail: -1}
+			if sanitize {
+				cfg.Merger = "sanitize"
+			}
+			atoms := append(append([]string{}, w.Atoms...), cfg.Atoms()...)
+			atoms = append(atoms, "startup-through-real-introspector")
+			rp := map[string]interface{}{"world": wd.Name(), "cfg": cfg.String()}
+			if !em.Begin(idx-1, atoms, rp) {
+				if em.Capped() {
+					return
+				}
+				continue
+			}
+			f, err := NewFed(w, cfg)
+			var sigs []string
+			if err != nil {
+				sigs = []string{"mergeable set rejected at start-up: " + Template(err.Error())}
+			} else {
+				sigs = c03Sigs(w, sanitize, &merger.MergeResult{Schema: f.GWSchema, TypeURLMap: f.TUM})
+			}
+			if len(sigs) > 0 {
+				em.Fail(atoms, sigs, rp)
+			}
+			em.Sample(rp)
+			em.Done(true)
+		}
+	}
+}
+
 func mergeRun(prop, tier, job string, from int, em *Emitter) {
+	if job == "introspected" {
+		c03Introspected(from, em)
+		return
+	}
 	if job == "introfail" {
 		c04IntroFail(from, em)
 		return
